@@ -9,6 +9,8 @@ use std::time::Instant;
 
 use peppi::game::immutable::Game;
 use proptest::test_runner::{Config, RngAlgorithm, RngSeed, TestCaseError, TestError, TestRunner};
+#[allow(unused_imports)]
+use proptest::test_runner::Reason;
 use serde_json::{json, Value};
 
 thread_local! {
@@ -61,7 +63,12 @@ impl<T> Out<T> {
 
 /// stable part of a panic text: the location
 pub fn panic_site(p: &str) -> String {
-	p.rsplit(" @ ").next().unwrap_or("").replace("/repo/", "")
+	let loc = p.rsplit(" @ ").next().unwrap_or("");
+	// keep the crate-relative part only (registry paths differ between machines)
+	match loc.find("/registry/src/") {
+		Some(i) => loc[i + 14..].splitn(2, '/').nth(1).unwrap_or(loc).to_string(),
+		None => loc.replace("/repo/", ""),
+	}
 }
 
 pub fn guard<T, E: std::fmt::Display>(f: impl FnOnce() -> Result<T, E>) -> Out<T> {
@@ -258,6 +265,20 @@ impl Ctx {
 		let mut s = self.samples.lock().unwrap();
 		if s.len() < MAX_SAMPLES {
 			s.push(v);
+		}
+	}
+	/// keep at most `per` samples carrying this label
+	pub fn sample_k(&self, label: &str, per: usize, v: impl FnOnce() -> Value) {
+		let mut s = self.samples.lock().unwrap();
+		let have = s.iter().filter(|x| x.get("kind").and_then(|k| k.as_str()) == Some(label)).count();
+		if have < per && s.len() < 24 {
+			let mut val = v();
+			if let Value::Object(o) = &mut val {
+				o.insert("kind".into(), json!(label));
+			} else {
+				val = json!({"kind": label, "case": val});
+			}
+			s.push(val);
 		}
 	}
 	pub fn set_rule(&self, r: &str) {
